@@ -1,10 +1,12 @@
 SPECIFICATION GSpec
 CONSTANTS
-  Kinds = {"d", "ad", "r", "adc"}
-  MaxLen = 2
+  Kinds = {"d", "ad", "r"}
+  MaxLen = 1
+  Hooks = {"ext"}
   FaultModes = {"ew"}
   Depth = 10
   MaxStarts = 2
+  MaxRefused = 0
   MaxStops = 1
 CONSTRAINT Bound
 INVARIANT Emit1
